@@ -289,7 +289,60 @@ def c03_let_family(rep, tier, coverage, ctx):
                            "explanation": "relation sorted inside a let / into declaration, then take in the consumer, then a transform forcing a sub-query"},
             "traces_validated_against_impl": coverage["traces_validated_against_impl"] + res["accepted"] + res["rejected"]}
 
-CONFIG["C03"]["extra"] = c03_let_family
+def c03_dialect_takes(rep, tier, coverage, ctx):
+    """C03 beyond SQLite: for programs whose SQLite execution the specification accepted, the statement emitted for every
+    other dialect must select the same row positions at the same places - the same sequence of (LIMIT, OFFSET) per query,
+    whether spelled LIMIT/OFFSET, OFFSET..FETCH or TOP (rule TakesOk of spec/SqlScope.tla)."""
+    import scoperun, copy
+    d = workdir("C03-dialects")
+    rnd = random.Random(seed() + 3)
+    acc = [x for x in ctx["accepted"] if any(s["op"] == "take" or (s["op"] in ("group", "window") and any(y["op"] == "take" for y in s["pipe"])) for s in x[0]["steps"])]
+    acc = acc if len(acc) <= (500 if tier == "quick" else 5000) else rnd.sample(acc, 500 if tier == "quick" else 5000)
+    progs = []
+    for i, (p, names) in enumerate(acc):
+        q = copy.deepcopy(p); q["id"] = f"k{i}"; q["decl"] = True; progs.append(q)
+    write_ndjson(os.path.join(d, "progs.ndjson"), progs)
+    pv(["render-ndjson", os.path.join(ROOT, "corpus", "dbs_quick.json"), os.path.join(d, "progs.ndjson"), os.path.join(d, "src.ndjson")])
+    TU = {"t": ["k", "a", "b"], "u": ["k", "a", "c"]}
+    srcs = [dict(r, schema=TU) for r in read_ndjson(os.path.join(d, "src.ndjson"))]
+    src_of = {r["id"]: r["src"] for r in srcs}; prog_of = {p["id"]: p for p in progs}
+    ref = scoperun.run(d, srcs, dialects="sqlite", nsh=4, tag="ref-", keep_events=True)
+    # SQLite spells "no upper bound" LIMIT -1 (documented); as an expectation it is an absent limit
+    expect = {pid: [["" if l == "-1" else l, o] for l, o in tk] for (pid, dl), tk in ref["takes_seen"].items()}
+    others = "ansi,bigquery,clickhouse,duckdb,generic,glaredb,mssql,mysql,postgres,redshift,snowflake"
+    judged = [s_ for s_ in srcs if s_["id"] in expect]
+    # binding demonstration: the same program once more with a wrong expectation must be rejected by rule TakesOk
+    probe = next((s_ for s_ in judged if expect[s_["id"]]), None)
+    if probe is not None:
+        judged.append(dict(probe, id="selftest-takes"))
+        expect["selftest-takes"] = [[(l + "1") if l else "7", o] for l, o in expect[probe["id"]]]
+    sr = scoperun.run(d, judged, dialects=others, expect_takes=expect)
+    if probe is not None:
+        st = [r for r in sr["rejects"] if r["id"] == "selftest-takes" and r["verdict"] == "takes"]
+        if not st:
+            raise ToolError("C03 selftest: a wrong (LIMIT, OFFSET) expectation was not rejected")
+        sr["rejects"] = [r for r in sr["rejects"] if r["id"] != "selftest-takes"]
+    n = 0
+    import tags
+    for rj in sr["rejects"]:
+        if rj["verdict"] != "takes":
+            continue
+        n += 1
+        rep.violation({"property": "C03", "kind": "dialect-takes", "dialect": rj["dialect"], "program": prog_of[rj["id"]], "prql": src_of[rj["id"]],
+                       "sql": rj["rec"].get("sql"), "expected_limit_offset": expect[rj["id"]], "statement_limit_offset": rj["detail"]},
+                      {"what": "dialect-takes", "dialect": rj["dialect"], "sql": rj["rec"].get("sql") or "", "src": src_of[rj["id"]], "tags": sorted(tags.tags(prog_of[rj["id"]])),
+                       "got": rj["detail"], "expected": json.dumps(expect[rj["id"]])})
+    return {"dialect_takes": {"programs": len(progs), "dialects": 11, "statements_judged": sr["judged"], "rejections": n,
+                              "explanation": "(LIMIT, OFFSET) sequence of the statement for each other dialect equals that of the SQLite statement whose execution the specification accepted"},
+            "traces_validated_against_impl": coverage["traces_validated_against_impl"] + sr["judged"]}
+
+def c03_extra(rep, tier, coverage, ctx):
+    out = c03_let_family(rep, tier, coverage, ctx)
+    coverage.update(out)
+    out.update(c03_dialect_takes(rep, tier, coverage, ctx))
+    return out
+
+CONFIG["C03"]["extra"] = c03_extra
 CONFIG["C05"]["extra"] = c05_dialect_frames
 
 def check(pid, tier, extra=None):
